@@ -258,7 +258,57 @@ fn random(src: &mut Src, st: &mut Stats, _env: &Env) -> CaseResult {
         0 => wide_int(src, len),
         _ => *src.pick(&[None, Some(1), Some(-1), Some(2), Some(-2), Some(3), Some(-3), Some(7), Some(-7), Some(64), Some(-64)]),
     };
-    check_slice("random", len, a, b2, c, st, c.unwrap_or(1) != 0)
+    check_slice("random", len, a, b2, c, st, c.unwrap_or(1) != 0)?;
+    // the same triple in other spellings of its numbers and blanks: leading zeros are part of a
+    // number token (only a minus sign must be followed by 1-9), blanks may surround every token
+    if src.chance(80) && c.unwrap_or(1) != 0 {
+        let num = |v: Option<i32>, src: &mut Src| -> String {
+            match v {
+                None => String::new(),
+                Some(x) if x >= 0 && src.chance(150) => {
+                    let zeros = match src.below(4) {
+                        0 => 1,
+                        1 => 2 + src.below(8),
+                        2 => 9 + src.below(4),
+                        _ => 12 + src.below(40),
+                    };
+                    format!("{}{}", "0".repeat(zeros), x)
+                }
+                Some(x) => x.to_string(),
+            }
+        };
+        let ws = |src: &mut Src| -> &'static str { if src.chance(50) { *src.pick(&[" ", "\n", "\t", "  "]) } else { "" } };
+        let (ta, tb, tc) = (num(a, src), num(b2, src), num(c, src));
+        let text = match c {
+            None => format!("xs[{}{}{}:{}{}{}]", ws(src), ta, ws(src), ws(src), tb, ws(src)),
+            Some(_) => format!("xs[{}{}{}:{}{}:{}{}{}]", ws(src), ta, ws(src), tb, ws(src), ws(src), tc, ws(src)),
+        };
+        let doc = json!({"xs": (0..len).collect::<Vec<usize>>()}).to_string();
+        let plain = search_text(&slice_expr(a, b2, c), &doc);
+        let spelled = search_text(&text, &doc);
+        st.eval();
+        let same = match (&plain, &spelled) {
+            (ImpOut::Ok(x), ImpOut::Ok(y)) => x.deep_eq(y),
+            _ => false,
+        };
+        if !same {
+            return Err(Failure::new("random", "slice-depends-on-number-spelling", format!("{} gave {} but {} gave {}", text, spelled.brief(), slice_expr(a, b2, c), plain.brief()), json!({"expression": text, "len": len})));
+        }
+        // an index likewise
+        if let Some(i) = a {
+            let (t1, t2) = (format!("xs[{}]", num(Some(i), src)), format!("xs[{}]", i));
+            let (g1, g2) = (search_text(&t1, &doc), search_text(&t2, &doc));
+            let same = match (&g1, &g2) {
+                (ImpOut::Ok(x), ImpOut::Ok(y)) => x.deep_eq(y),
+                _ => false,
+            };
+            if !same {
+                return Err(Failure::new("random", "index-depends-on-number-spelling", format!("{} gave {} but {} gave {}", t1, g1.brief(), t2, g2.brief()), json!({"expression": t1, "len": len})));
+            }
+        }
+        st.class("respelled-numbers");
+    }
+    Ok(())
 }
 
 /// Non-array subjects, arrays with heterogeneous content, and indexes.
